@@ -267,7 +267,12 @@ func c11Check(docJSON string, pol mcrt.Policy) (sig, what string, nontrivial boo
 	if o.Crashed() {
 		return "crash in getters at " + o.PanicFrame, o.Panic, false, "crash"
 	}
-	outcome = strings.Join(sortedCopy(got.All), "|")
+	// the canonical end state is the index as a whole: which holder (by pointer) refers to what
+	var st []string
+	for _, r := range w.Refs {
+		st = append(st, r.Kind+"@"+strings.Join(r.Tokens, "/")+"="+r.Ref)
+	}
+	outcome = strings.Join(sortedCopy(st), "|") + "#" + strings.Join(sortedCopy(got.All), "|")
 	nontrivial = len(all) > 0
 	cmp := func(view string, g, e []string) (string, string) {
 		if !sameMultiset(g, e) {
